@@ -12,7 +12,8 @@
     and indexes are unbounded. *)
 From Coq Require Import ZArith List Bool.
 From Low Require Import Lib.MachInt Lib.Bits Lib.BitSeq Lib.Bytes Lib.Pack_bw Model.Bitword Spec.BitwordSpec
-  Proofs.BitwordProofs Proofs.BitwordToStr Proofs.BitwordFirstDiff.
+  Lib.Lex Spec.BitwordSpecDirect Spec.BitwordSpecWiden
+  Proofs.BitwordProofs Proofs.BitwordToStr Proofs.BitwordFirstDiff Proofs.BitwordDirect Proofs.BitwordWiden Proofs.BitwordLcp.
 Import ListNotations.
 Open Scope Z_scope.
 
@@ -111,6 +112,89 @@ Theorem C08_ToStrs : forall n wss, widthP n -> Forall (words_in n) wss ->
 Proof. exact ToStrs_exact. Qed.
 Print Assumptions C08_ToStrs.
 
+(** * the word-by-word reading used by the correspondence run on large inputs
+    (ops bitword.Get/large, FirstDiff/large, FromStr/large, ToStr/large) is the same specification *)
+
+(** "word i is the n bits of s starting at bit i*n": [spec_word] = indexing the chunk list *)
+Theorem C08_direct_word : forall n s i, (0 < n)%nat ->
+  spec_word n s i = nthZ (map val_msb (chunks n (msb_bits s))) i.
+Proof. exact spec_word_eq. Qed.
+Print Assumptions C08_direct_word.
+
+Theorem C08_direct_FirstDiff : forall n a b from end_, (0 < n)%nat ->
+  spec_FirstDiff_direct n a b from end_ = spec_FirstDiff n a b from end_.
+Proof. exact spec_FirstDiff_direct_eq. Qed.
+Print Assumptions C08_direct_FirstDiff.
+
+Theorem C08_direct_FromStr : forall n s, (0 < n)%nat ->
+  spec_FromStr_seq n s = map val_msb (chunks n (msb_bits s)).
+Proof. exact spec_FromStr_seq_eq. Qed.
+Print Assumptions C08_direct_FromStr.
+
+Theorem C08_direct_ToStr : forall n ws, spec_ToStr_seq n ws = pack (flat_map (to_bits n) ws).
+Proof. exact spec_ToStr_seq_eq. Qed.
+Print Assumptions C08_direct_ToStr.
+
+(** Get and FromStr against the word-by-word reading, as observed by bitword.Get/large *)
+Theorem C08_Get_word : forall n s i, widthP n -> bytes_ok s -> 0 <= i < nwords n s ->
+  Get (newBW (Z.of_nat n)) s i = spec_word n s i /\
+  nthZ (FromStr (newBW (Z.of_nat n)) s) i = spec_word n s i.
+Proof. exact Get_word. Qed.
+Print Assumptions C08_Get_word.
+
+(** * widened: around the statement of C08 *)
+
+(** FromStr keeps the order of the strings (doc comment of FromStr: "the result byte slice keeps
+    order with the original string"): comparing the word slices byte-wise = comparing the strings *)
+Theorem C08_FromStr_order : forall n a, widthP n -> forall b, bytes_ok a -> bytes_ok b ->
+  bytes_cmp (FromStr (newBW (Z.of_nat n)) a) (FromStr (newBW (Z.of_nat n)) b) = bytes_cmp a b.
+Proof. exact FromStr_order. Qed.
+Print Assumptions C08_FromStr_order.
+
+Theorem C08_FromStr_injective : forall n a b, widthP n -> bytes_ok a -> bytes_ok b ->
+  FromStr (newBW (Z.of_nat n)) a = FromStr (newBW (Z.of_nat n)) b -> a = b.
+Proof. exact FromStr_inj. Qed.
+Print Assumptions C08_FromStr_injective.
+
+(** Get for EVERY int index: the word inside [0, words), a panic ([None]) outside *)
+Theorem C08_Get_any : forall n s i, widthP n -> bytes_ok s ->
+  Get (newBW (Z.of_nat n)) s i = spec_word n s i.
+Proof. exact Get_any. Qed.
+Print Assumptions C08_Get_any.
+
+Theorem C08_Get_panics_outside : forall n s i, widthP n -> ~ (0 <= i < 8 * zlen s / Z.of_nat n) ->
+  Get (newBW (Z.of_nat n)) s i = None.
+Proof. exact Get_outside. Qed.
+Print Assumptions C08_Get_panics_outside.
+
+(** FirstDiff for EVERY (from, end): lim when the window [from, lim) is empty (also for negative
+    from or end < -1), a panic when it is not empty and from < 0, else the first differing index *)
+Theorem C08_FirstDiff_any : forall n a b from end_, widthP n -> bytes_ok a -> bytes_ok b ->
+  FirstDiff (newBW (Z.of_nat n)) a b from end_ = spec_FirstDiff_any n a b from end_.
+Proof. exact FirstDiff_any. Qed.
+Print Assumptions C08_FirstDiff_any.
+
+(** ToStr on ARBITRARY words (no range hypothesis at all): never panics; output byte k is the
+    base-2^n numeral of the k-th group of 8/n words (missing words = 0) modulo 256 - the carries of
+    the uint8 accumulator; on in-range words this is the packing of C08_ToStr *)
+Theorem C08_ToStr_any : forall n ws, widthP n ->
+  ToStr (newBW (Z.of_nat n)) ws = Some (spec_ToStr_any n ws).
+Proof. exact ToStr_any. Qed.
+Print Assumptions C08_ToStr_any.
+
+Theorem C08_ToStr_any_in_range : forall n ws, widthP n -> words_in n ws ->
+  spec_ToStr_any n ws = pack (flat_map (to_bits n) ws).
+Proof. exact spec_ToStr_any_in. Qed.
+Print Assumptions C08_ToStr_any_in_range.
+
+(** FirstDiff(a, b, 0, -1) = the length of the longest common prefix of the two word lists
+    (the use the trie code makes of it) *)
+Theorem C08_FirstDiff_lcp : forall n a b, widthP n ->
+  FirstDiff (newBW (Z.of_nat n)) a b 0 (-1) =
+  Some (zlen (lcp Z.eqb (FromStr (newBW (Z.of_nat n)) a) (FromStr (newBW (Z.of_nat n)) b))).
+Proof. exact FirstDiff_lcp. Qed.
+Print Assumptions C08_FirstDiff_lcp.
+
 (** * non-vacuity *)
 
 (** the four widths satisfy the hypothesis; a string with high bits set *)
@@ -165,3 +249,26 @@ Proof.
   - repeat (apply Forall_cons; [apply bytes_okb_ok; reflexivity|]). apply Forall_nil.
   - repeat (apply Forall_cons; [apply words_inb_in; reflexivity|]). apply Forall_nil.
 Qed.
+
+Example C08_direct_nonvacuous :
+  spec_word 4 [0xa5; 0xff; 0x01] 5 = Some 1 /\ spec_word 4 [0xa5; 0xff; 0x01] 6 = None /\
+  spec_word 4 [0xa5; 0xff; 0x01] (-1) = None /\
+  spec_FirstDiff_direct 2 [0xa5; 0xff] [0xa5; 0xf7; 0x00] 0 (-1) = 6 /\
+  spec_FromStr_seq 2 [0xa5; 0xff; 0x01] = [2; 2; 1; 1; 3; 3; 3; 3; 0; 0; 0; 1] /\
+  spec_ToStr_seq 2 [3; 0; 1] = [0xc4].
+Proof. repeat split; reflexivity. Qed.
+
+Example C08_widen_nonvacuous :
+  bytes_cmp (FromStr (newBW 4) [0x61]) (FromStr (newBW 4) [0x61; 0x00]) = Lt /\
+  bytes_cmp (FromStr (newBW 1) [0x80]) (FromStr (newBW 1) [0x7f; 0xff]) = Gt /\
+  Get (newBW 2) [0xa5] (-1) = None /\ Get (newBW 2) [0xa5] 4 = None /\ Get (newBW 2) [0xa5] 3 = Some 1 /\
+  FirstDiff (newBW 4) [0xa5] [0xa5] (-1) (-1) = None /\
+  FirstDiff (newBW 4) [0xa5] [0xa5] (-1) (-3) = Some (-3) /\
+  FirstDiff (newBW 4) [0xa5] [] (-1) (-1) = None /\
+  FirstDiff (newBW 4) [0xa5] [] 0 (-1) = Some 0 /\
+  lcp Z.eqb (FromStr (newBW 4) [0xa5; 0xff]) (FromStr (newBW 4) [0xa5; 0xf7; 0x00]) = [0xa; 5; 0xf] /\
+  FirstDiff (newBW 4) [0xa5; 0xff] [0xa5; 0xf7; 0x00] 0 (-1) = Some 3 /\
+  ToStr (newBW 4) [0x1f; 0x23; 0xff] = Some [0x13; 0xf0] /\
+  ToStr (newBW 8) [0x1f; 0x23] = Some [0x1f; 0x23] /\
+  spec_ToStr_any 4 [0x1f; 0x23; 0xff] = [0x13; 0xf0].
+Proof. repeat split; reflexivity. Qed.
